@@ -552,10 +552,15 @@ impl<T: TypeConfig> Transport<T> for SimTransport<T> {
         let my = self.my_id;
         let li = metadata.last_included.unwrap_or_default();
         let res: Result<()> = async {
-            let ep = net
-                .request_leg(my, peer_id)
-                .await
-                .map_err(|s| NetworkError::TonicStatusError(Box::new(s)))?;
+            // a gRPC channel gives up on a blackholed peer (connect timeout); without this the
+            // transfer would never complete and the worker's `snapshot_in_progress` flag would
+            // keep every later AppendEntries for that peer from being sent
+            let ep = match tokio::time::timeout(Duration::from_millis(2000), net.request_leg(my, peer_id)).await {
+                Ok(r) => r.map_err(|s| NetworkError::TonicStatusError(Box::new(s)))?,
+                Err(_) => {
+                    return Err(NetworkError::TonicStatusError(Box::new(Status::unavailable("sim: connect timeout"))).into());
+                }
+            };
             let mut data_stream = state_machine_handler.load_snapshot_data(metadata).await?;
             let (tx, rx) = mpsc::channel::<SnapshotChunk>(32);
             let (resp_tx, resp_rx) = MaybeCloneOneshot::new();
